@@ -29,20 +29,23 @@ def _logN_poly(ops, D, mu, Sigma):
     return poly
 
 
-def kl_case(D, Rp, Rq, same=False, timeout=400):
-    cid = f"C13/kl/D{D}Rp{Rp}Rq{Rq}" + ("/same" if same else "")
-    cfg = dict(op="entropy+kl_divergence", D=D, R_p=Rp, R_q=Rq, q_equals_p=same)
+def kl_case(D, Rp, Rq, same=False, timeout=400, classes=("full", "full")):
+    """classes: (class of p, class of q) in {full, diag}: the two sides may be of different density classes"""
+    cid = f"C13/kl/D{D}Rp{Rp}Rq{Rq}" + ("/same" if same else "") + ("" if classes == ("full", "full") else f"/{classes[0]}-vs-{classes[1]}")
+    cfg = dict(op="entropy+kl_divergence", D=D, R_p=Rp, R_q=Rq, q_equals_p=same, class_p=classes[0], class_q=classes[1])
     R = max(Rp, Rq)
 
     def declare(b):
-        b.spd("Sp", Rp, D); b.free("mp", (Rp, D))
+        (b.diag if classes[0] == "diag" else b.spd)("Sp", Rp, D); b.free("mp", (Rp, D))
         if not same:
-            b.spd("Sq", Rq, D); b.free("mq", (Rq, D))
+            (b.diag if classes[1] == "diag" else b.spd)("Sq", Rq, D); b.free("mq", (Rq, D))
 
     def fn(**A):
         factor, measure, pdf, conditional = gt()
-        p = pdf.GaussianPDF(Sigma=A["Sp"], mu=A["mp"])
-        q = pdf.GaussianPDF(Sigma=A["Sp"], mu=A["mp"]) if same else pdf.GaussianPDF(Sigma=A["Sq"], mu=A["mq"])
+        cp = pdf.GaussianDiagPDF if classes[0] == "diag" else pdf.GaussianPDF
+        cq = pdf.GaussianDiagPDF if classes[1] == "diag" else pdf.GaussianPDF
+        p = cp(Sigma=A["Sp"], mu=A["mp"])
+        q = cp(Sigma=A["Sp"], mu=A["mp"]) if same else cq(Sigma=A["Sq"], mu=A["mq"])
         return {"H": p.entropy(), "KL": p.kl_divergence(q)}
 
     def claims(I, O, ops):
@@ -159,6 +162,9 @@ def cases(tier, seed=0):
         for (Rp, Rq) in ((2, 2), (1, 2), (2, 1)):
             out.append(kl_case(D, Rp, Rq))
         out.append(kl_case(D, 2, 2, same=True))
+    for cls in (("diag", "full"), ("full", "diag"), ("diag", "diag")):
+        out.append(kl_case(2, 2, 2, classes=cls)); out.append(kl_case(2, 1, 2, classes=cls))
+    out.append(kl_case(2, 2, 2, same=True, classes=("diag", "diag")))
     if tier == "thorough":
         out.append(kl_case(3, 1, 1, timeout=1800))
         out.append(kl_case(3, 2, 2, same=True, timeout=1800))
